@@ -2,6 +2,7 @@ import O4.Model.Obfs3
 import O4.Lemmas.Obfs3
 import O4.Lemmas.UdhAgree
 import O4.Lemmas.CtrLaw
+import O4.Generated.Facts.Obfs3
 /-!
 # C13 — obfs3 and UniformDH: agreement, stream integrity, rejection of over-padding
 
@@ -48,6 +49,33 @@ theorem spec_constants :
     O4.Consts.Uniformdh.modpStr =
       "FFFFFFFFFFFFFFFFC90FDAA22168C234C4C6628B80DC1CD129024E088A67CC74020BBEA63B139B22514A08798E3404DDEF9519B3CD3A431B302B0A6DF25F14374FE1356D6D51C245E485B576625E7EC6F44C42E9A637ED6B0BFF5CB6F406B7EDEE386BFB5A899FA5AE9F24117C4B1FE649286651ECE45B3DC2007CB8A163BF0598DA48361C55D39A69163FA8FD24CF5F83655D23DCA3AD961C62F356208552BB9ED529077096966D670C354E4ABC9804F1746C08CA237327FFFFFFFFFFFFFFFF" :=
   ⟨rfl, rfl, rfl, rfl, rfl, rfl, rfl, rfl, rfl, rfl, rfl⟩
+
+/-! ### structural facts of the Go source the model rests on (go/ast, regenerated per run) -/
+
+/-- The model treats HMAC / AES-CTR as pure functions with per-connection state, the key read as
+`io.ReadFull` (never over-reading: `handshake_never_overreads`), `Read` as scan + `rx.Read`
+(`cipher.StreamReader`), and `Read` / `Write` as working on disjoint state (so they may run in
+different goroutines). In the source: `kdf` makes fresh `hmac.New`, `aes.NewCipher`,
+`cipher.NewCTR`; `handshake` reads with `io.ReadFull` only; `findPeerMagic` is the only caller of
+`Conn.Read` besides the stream reader; the fields `Read` touches and the fields `Write` touches
+meet only in the embedded `Conn` (and `Close`). -/
+theorem structure_facts :
+    "hmac.New" ∈ O4.Facts.Obfs3.obfs3Conn_kdf_calls ∧
+    "aes.NewCipher" ∈ O4.Facts.Obfs3.obfs3Conn_kdf_calls ∧
+    "cipher.NewCTR" ∈ O4.Facts.Obfs3.obfs3Conn_kdf_calls ∧
+    "io.ReadFull" ∈ O4.Facts.Obfs3.obfs3Conn_handshake_calls ∧
+    "io.ReadAtLeast" ∉ O4.Facts.Obfs3.obfs3Conn_handshake_calls ∧
+    "Conn.Read" ∉ O4.Facts.Obfs3.obfs3Conn_handshake_calls ∧
+    "rxBuf.Write" ∉ O4.Facts.Obfs3.obfs3Conn_handshake_calls ∧
+    "uniformdh.GenerateKey" ∈ O4.Facts.Obfs3.obfs3Conn_handshake_calls ∧
+    "uniformdh.Handshake" ∈ O4.Facts.Obfs3.obfs3Conn_handshake_calls ∧
+    "conn.findPeerMagic" ∈ O4.Facts.Obfs3.obfs3Conn_Read_calls ∧
+    "rx.Read" ∈ O4.Facts.Obfs3.obfs3Conn_Read_calls ∧
+    "Conn.Read" ∉ O4.Facts.Obfs3.obfs3Conn_Read_calls ∧
+    "tx.Write" ∈ O4.Facts.Obfs3.obfs3Conn_Write_calls ∧
+    (∀ f ∈ O4.Facts.Obfs3.obfs3Conn_Read_fields, f ∈ O4.Facts.Obfs3.obfs3Conn_Write_fields →
+      f = "Conn" ∨ f = "Close") := by
+  decide
 
 /-! ### UniformDH -/
 
